@@ -381,6 +381,9 @@ def check_decay(ctx, case):
             if not slope < 0:
                 return xr, f(xr)
             x2 = xr + off * target / slope      # left of the root: total activity above the target by ~off
+            if not x2 >= 0:
+                ctx.count('acceptance.not_injectable')   # flat tail: the shifted time would precede the removal
+                return xr, f(xr)
             ctx.count('acceptance.injected')
             return x2, f(x2)
         _state['inject'] = degrade
